@@ -18,12 +18,22 @@ def run(ctx):
     thorough = ctx.tier == "thorough" or not ctx.proof_ok
     rule, samples = L.run_seq(ctx, res, thorough)
     crule, csamples, guard_losses = L.run_conc(ctx, res, thorough)
-    if guard_losses:
-        # log calls made while ANOTHER producer was inside qb_log_real_va_: turned away by the process-wide
-        # in_logger guard, silently.  Proposed known finding (guard of C16_no_silent_loss_single_producer: one producer).
-        res.known_hits[KNOWN_GUARD] = guard_losses
+    # log calls turned away by a process-wide in_logger guard are violations (repaired by fixes/C16-5; the monitor
+    # names them); the count is kept in the evidence
+    res.extra["conc_in_logger_guard_losses"] = guard_losses
     res.rule = rule + "; " + crule
     res.samples = samples + csamples
+    try:
+        _, problems = C.gen_src()
+    except Exception as e:                      # the proof stage reports a broken translation; this is evidence only
+        problems = {"logthr": [("c2coq", str(e))]}
+    res.extra["src_tie"] = {
+        "translated_and_proved_equal": ["qb_log_thread_log_post", "qb_log_thread_pause", "qb_log_thread_resume",
+                                        "qb_log_thread_start"],
+        "outside_the_translator_subset": [list(x) for x in problems.get("logthr", [])],
+        "theorems": "coq/PropertiesSrc_C16.v",
+        "note": "lock/unlock/sem_post/list_add_tail/log_write/malloc/strlen are oracle calls: their number per path is "
+                "tied, their order is checked by the schedule-controlled correspondence run only"}
     res.extra["monitor"] = ("independent Python statements of C16 over the implementation log (vlib/logthr.py: "
                             "seq_monitor): no crash / sanitizer report, each log call written exactly once to every "
                             "enabled target and to no other; conc_monitor: termination, no close callback during a logger "
